@@ -274,6 +274,11 @@ Check(e) ==
                           v2 == UpdateVal(v1, m, ZeroW, b)
                       IN e.r = << Modelled(e.pre, m), Modelled(v1, m) >> /\ e.post = v2
                            /\ WrittenVals(e.instrs) = << v1, v2 >>
+                 [] e.api = "Cr3::read_raw;Cr3::write_raw;Cr3::read_raw" ->
+                      LET lowm == LowMask(12)
+                          fm == MaskW(12, 52)
+                          new == OrW(a, b)
+                      IN e.r = << AndW(e.pre, fm), AndW(e.pre, lowm), a, b >> /\ e.post = new
                  [] e.api = "Cr0::read_raw;Cr0::write_raw;Cr0::read_raw;Cr0::read" ->
                       e.r = << e.pre, a, Modelled(a, m) >> /\ e.post = a
                  [] OTHER -> FALSE
